@@ -4,11 +4,13 @@ package checks
 
 import (
 	"encoding/binary"
+	"encoding/hex"
 	"fmt"
 	"math/rand"
 	"os"
 	"path/filepath"
 	"strings"
+	"verif/refcrypt"
 
 	"verif/iso"
 	"verif/tree"
@@ -142,6 +144,22 @@ func isoTrees(e *Env, r *rand.Rand, parent string, hostileNames bool) []isoCase 
 				mk(fmt.Sprintf("exactfill-sub-L%d-j%v-k%d", L, joliet, k), false, sub)
 			}
 		}
+	}
+	// members that look like images the server would transform when opened by themselves (a keyed
+	// .iso below a PS3ISO directory, a file carrying the 3k3y watermark): inside a generated image they are
+	// just files, byte for byte — this shape is always fetched through the server as well
+	mk("member-looks-like-images", false, map[string]int64{"PS3ISO/x.iso": 40 * 2048, "PS3ISO/x.dkey": 32, "GAMES/k3.bin": 8192, "plain.bin": 100})
+	{
+		d := filepath.Join(parent, "member-looks-like-images")
+		regs := []refcrypt.Region{{Start: 0, End: 1}, {Start: 6, End: 9}}
+		plain := tree.Content(77, 40*2048)
+		copy(plain, refcrypt.Table(regs))
+		key := tree.Content(78, 16)
+		must(os.WriteFile(filepath.Join(d, "PS3ISO", "x.iso"), refcrypt.BuildImage(plain, regs, key), 0o644))
+		must(os.WriteFile(filepath.Join(d, "PS3ISO", "x.dkey"), []byte(hex.EncodeToString(key)), 0o644))
+		k3 := tree.Content(79, 8192)
+		copy(k3[maskBegin:], wmDec)
+		must(os.WriteFile(filepath.Join(d, "GAMES", "k3.bin"), k3, 0o644))
 	}
 	// directory counts at which the Joliet path table needs more sectors than the primary one (its
 	// identifiers are twice as long): every table has its own length
@@ -349,7 +367,7 @@ func isoCampaign(e *Env, prop string) {
 			}
 		}
 		// (b) over the network
-		if i%e.Pick(3, 2) == 0 {
+		if i%e.Pick(3, 2) == 0 || strings.HasPrefix(c.Name, "member-looks") {
 			pre := "/***DVD***"
 			if c.PS3 {
 				pre = "/***PS3***"
